@@ -16,12 +16,17 @@ Process creation: a *zygote* (one python process that has imported androguard.se
 per request; children talk to the parent over an AF_UNIX socket.  Forking instead of exec'ing saves the 1.3 s import per child (there
 are ~600 children in the quick tier) and gives every child identical, connection-free initial state.
 
+Worker pool (default in the check): instead of forking k children per schedule, n persistent workers forked once serve one constructor
+call per run; whatever the call opened is closed before the worker reports (what the end of the process would do).  One-shot children
+(fork per constructor, process ends after the report) remain available and are cross-checked against the pool in the check.
+
 Stress mode: no pauses; seeded random sleeps of 0..max_sleep_ms at the same hook points; per round k fresh children, released together
 from a barrier; each child process ends right after its constructor returned or raised.
 
 This module never looks at results: it returns the recorded history; the oracle lives in the check.
 Run as script: `sched.py zygote` (internal).
 """
+import gc
 import json
 import os
 import random
@@ -71,17 +76,37 @@ class _Chan:
 
 class _ChildState:
     def __init__(self):
+        self.points = ()
+        self.dbs = []  # dataset.Database objects created by the constructor under observation
         self.in_insert = False
         self.log = []  # (point, "begin"/"end"/value..., monotonic_ns)
         self.hook = None  # callable(point)
 
 
-def _install_patches(st, points):
-    """wrap the real dataset methods; st.hook(point) is called at each enabled point (session table only)"""
+class _Points:
+    """the enabled points of the current run (st.points), evaluated at call time"""
+
+    def __init__(self, st):
+        self.st = st
+
+    def __contains__(self, p):
+        return p in self.st.points
+
+
+def _install_patches(st):
+    """wrap the real dataset methods once per process; st.hook(point) is called at each point enabled in st.points (session table only)"""
+    import dataset
     import dataset.table
     T = dataset.table.Table
     o_len, o_insert, o_sync_table, o_sync_columns = T.__len__, T.insert, T._sync_table, T._sync_columns
-    extended = "S" in points or "C" in points
+    points = _Points(st)
+    o_connect = dataset.connect
+
+    def w_connect(*a, **k):
+        db = o_connect(*a, **k)
+        st.dbs.append(db)  # passive: remembered only to close it after the constructor returned or raised
+        return db
+    dataset.connect = w_connect
 
     def w_len(self):
         if self.name != SESSION_TABLE:
@@ -100,6 +125,7 @@ def _install_patches(st, points):
     def w_insert(self, row, *a, **k):
         if self.name != SESSION_TABLE:
             return o_insert(self, row, *a, **k)
+        extended = "S" in points or "C" in points
         if "I" in points and not extended:
             st.hook("I")
         st.in_insert = True
@@ -122,6 +148,7 @@ def _install_patches(st, points):
 
     def w_sync_columns(self, row, ensure, types=None):
         out = o_sync_columns(self, row, ensure, types=types)
+        extended = "S" in points or "C" in points
         if self.name == SESSION_TABLE and st.in_insert and extended and "I" in points:
             st.hook("I")
             st.log.append(("I", "execute", time.monotonic_ns()))
@@ -131,18 +158,16 @@ def _install_patches(st, points):
     T.insert = w_insert
     T._sync_table = w_sync_table
     T._sync_columns = w_sync_columns
-    if "C" in points:
-        import sqlalchemy.sql.ddl as ddl
-        o_can = ddl.SchemaGenerator._can_create_table
+    import sqlalchemy.sql.ddl as ddl
+    o_can = ddl.SchemaGenerator._can_create_table
 
-        def w_can(self, table):
-            r = o_can(self, table)
-            if r and getattr(table, "name", None) == SESSION_TABLE and st.in_insert and self.checkfirst:
-                st.hook("C")
-                st.log.append(("C", "about to CREATE TABLE", time.monotonic_ns()))
-            return r
-        ddl.SchemaGenerator._can_create_table = w_can
-    st.counts = {"len": 0, "insert": 0}
+    def w_can(self, table):
+        r = o_can(self, table)
+        if "C" in points and r and getattr(table, "name", None) == SESSION_TABLE and st.in_insert and self.checkfirst:
+            st.hook("C")
+            st.log.append(("C", "about to CREATE TABLE", time.monotonic_ns()))
+        return r
+    ddl.SchemaGenerator._can_create_table = w_can
 
 
 def _exc_text(e):
@@ -165,12 +190,18 @@ def _construct(db_url, st):
     res["t_begin"], res["t_end"] = t0, time.monotonic_ns()
     res["log"] = st.log
     st.log = []
-    # release the connections before reporting, so that the parent reads a quiescent file
-    try:
-        if s is not None:
-            s.db.close()
-    except Exception:
-        pass
+    st.in_insert = False
+    # After the constructor returned or raised: close every database it opened before reporting.  For other processes this is what
+    # the end of the process would be (connections closed, a half-done write transaction of a failed INSERT rolled back, locks
+    # released); it lets the parent read a quiescent file and lets a worker process serve the next run without leftovers.
+    del s
+    for db in st.dbs:
+        try:
+            db.close()
+        except Exception:
+            pass
+    st.dbs = []
+    gc.collect()
     return res
 
 
@@ -180,36 +211,37 @@ def _child_body(cfg):
     ch = _Chan(sock)
     st = _ChildState()
     ch.send({"ev": "hello", "idx": cfg["idx"], "pid": os.getpid()})
-    if cfg["mode"] == "rendezvous":
-        def hook(point):
-            ch.send({"ev": "at", "point": point})
-            m = ch.recv()
-            if m is None or m.get("cmd") != "go":
-                os._exit(1)
-        st.hook = hook
-        _install_patches(st, cfg["points"])
-        m = ch.recv()  # start barrier
-        if m is None:
-            os._exit(1)
-        res = _construct(cfg["db_url"], st)
-        res["ev"] = "exit"
-        ch.send(res)
-    elif cfg["mode"] == "stress":
-        rng = random.Random(cfg["seed"])
-        max_ms = cfg["max_sleep_ms"]
-
-        def hook(point):
-            time.sleep(rng.uniform(0, max_ms) / 1000.0)
-        st.hook = hook
-        _install_patches(st, cfg["points"])
-        m = ch.recv()  # barrier: the parent releases all children of the round together
+    def pause(point):
+        ch.send({"ev": "at", "point": point})
+        m = ch.recv()
         if m is None or m.get("cmd") != "go":
             os._exit(1)
-        res = _construct(cfg["db_url"], st)
+    _install_patches(st)
+
+    def one(run):
+        st.points = tuple(run["points"])
+        if run["mode"] == "rendezvous":
+            st.hook = pause
+        else:
+            rng = random.Random(run["seed"])
+            max_ms = run["max_sleep_ms"]
+            st.hook = lambda point: time.sleep(rng.uniform(0, max_ms) / 1000.0)
+        res = _construct(run["db_url"], st)
         res["ev"] = "exit"
         ch.send(res)
-        # the process ends right here (as a CLI run would after the constructor returned or raised): whatever the failed
-        # constructor left open (a half-done write transaction) is released by the exit, not kept by a lingering worker
+    if cfg["mode"] == "server":
+        # persistent worker: one constructor call per "run" message; everything the call opened is closed before the report
+        while True:
+            m = ch.recv()
+            if m is None or m.get("cmd") != "run":
+                break
+            one(m)
+    else:
+        # one-shot child: configuration came with the fork request; "go" is the start barrier; the process ends after the report
+        m = ch.recv()
+        if m is None or m.get("cmd") != "go":
+            os._exit(1)
+        one(cfg)
     ch.close()
 
 
@@ -408,6 +440,7 @@ class _Group:
                 hello = ch.recv(timeout)
                 if hello is None:
                     raise RuntimeError("child closed the channel before hello")
+                ch.pid = hello["pid"]
                 self.chans[hello["idx"]] = ch
         except BaseException:
             self.kill()
@@ -441,7 +474,98 @@ class _Group:
             pass
 
 
-def run_schedule(zy, sockdir, k, db_url, points, chooser, timeout=60):
+class _Lease:
+    """k workers borrowed from a WorkerPool; same interface as _Group"""
+
+    def __init__(self, pool, workers, timeout):
+        self.pool, self.workers, self.timeout = pool, workers, timeout
+        self.chans = {i: w[1] for i, w in enumerate(workers)}
+        self.dead = False
+
+    def recv(self, idx):
+        try:
+            return self.chans[idx].recv(self.timeout)
+        except TimeoutError:
+            raise Watchdog("worker %d silent for %ss" % (idx, self.timeout))
+
+    def kill(self):
+        self.dead = True
+        for pid, ch in self.workers:
+            try:
+                os.kill(pid, signal.SIGKILL)
+            except OSError:
+                pass
+            ch.close()
+
+    def close(self):
+        self.pool._give_back(self)
+
+
+class WorkerPool:
+    """n persistent worker processes (forked from the zygotes, mode "server").  Every run borrows k of them; a worker executes one
+    real constructor call per run and closes everything that call opened before it reports.  Forking ~3 processes per schedule costs
+    ~0.1 s of kernel time each (copy-on-write of the 90 MB androguard image), which is what dominated the wall time; the processes
+    are as real and as separate as before, only longer lived.  Workers of a run that hit the watchdog are killed and replaced."""
+
+    def __init__(self, zy, sockdir, n, timeout=60):
+        self.zy, self.sockdir, self.n, self.timeout = zy, sockdir, n, timeout
+        self.cv = threading.Condition()
+        self.free = []
+        self.alive = 0
+        self.forked = 0
+        self.runs = 0
+        self._grow(n)
+
+    def _grow(self, m):
+        g = _Group(self.zy, self.sockdir, [{"mode": "server", "idx": i} for i in range(m)], self.timeout)
+        for i in range(m):
+            ch = g.chans[i]
+            self.free.append((ch.pid, ch))
+        self.alive += m
+        self.forked += m
+        try:
+            g.listener.close()
+            os.unlink(g.path)
+        except OSError:
+            pass
+
+    def acquire(self, k):
+        with self.cv:
+            while True:
+                if len(self.free) >= k:
+                    ws = [self.free.pop() for _ in range(k)]
+                    self.runs += 1
+                    return _Lease(self, ws, self.timeout)
+                if self.alive < self.n:
+                    self._grow(self.n - self.alive)
+                    continue
+                self.cv.wait(1.0)
+
+    def _give_back(self, lease):
+        with self.cv:
+            if lease.dead:
+                self.alive -= len(lease.workers)
+            else:
+                self.free.extend(lease.workers)
+            lease.workers = []
+            self.cv.notify_all()
+
+    def close(self):
+        with self.cv:
+            for pid, ch in self.free:
+                try:
+                    ch.send({"cmd": "quit"})
+                except OSError:
+                    pass
+                ch.close()
+                try:
+                    os.kill(pid, signal.SIGKILL)
+                except OSError:
+                    pass
+            self.free = []
+
+
+def run_schedule(zy, sockdir, k, db_url, points, chooser, timeout=60, pool=None):
     """Run k constructors on db_url under the rendez-vous scheduler.
     chooser(step_no, enabled) -> child idx, where enabled = sorted list of (idx, point) of paused children.
     -> {"status": "ok" | "watchdog: ...", "trace": [(idx, point)], "enabled": [[idx,...] per step], "results": {idx: exit message},
@@ -451,12 +575,17 @@ def run_schedule(zy, sockdir, k, db_url, points, chooser, timeout=60):
     cfgs = [{"mode": "rendezvous", "idx": i, "db_url": db_url, "points": list(points)} for i in range(k)]
     g = None
     try:
-        g = _Group(zy, sockdir, cfgs, timeout)
+        if pool is not None:
+            g = pool.acquire(k)
+            start = [dict(c, cmd="run") for c in cfgs]
+        else:
+            g = _Group(zy, sockdir, cfgs, timeout)
+            start = [{"cmd": "go"}] * k
         at = {}
         # start: every child runs up to its first pause point (nothing of the real code touches the database before the
         # first point: dataset.connect() only builds a lazy engine, the first connection is made inside Table.__len__)
         for i in range(k):
-            g.chans[i].send({"cmd": "go"})
+            g.chans[i].send(start[i])
         for i in range(k):
             m = g.recv(i)
             if m is None:
@@ -484,6 +613,8 @@ def run_schedule(zy, sockdir, k, db_url, points, chooser, timeout=60):
                 out["results"][i] = m
             out["step_ms"].append(int((time.time() - t_step) * 1000))
             step += 1
+        if pool is not None and any(r.get("exc_type") == "ChildDied" for r in out["results"].values()):
+            g.kill()  # never hand a dead worker back to the pool
     except Watchdog as e:
         out["status"] = "watchdog: %s" % e
         if g:
@@ -553,9 +684,10 @@ def explore_all(run_prefix, workers=8, max_runs=None, rng=None):
     return results, complete
 
 
-def run_unscheduled(zy, sockdir, k, db_urls, points, seed, max_sleep_ms=2.0, timeout=120):
-    """per db_url one round: k fresh children are forked, wait at a barrier, are released together and run the constructor with
-    seeded random sleeps of 0..max_sleep_ms at the hook points.  -> list of {"status", "results": {idx: msg}, "round"} per round"""
+def run_unscheduled(zy, sockdir, k, db_urls, points, seed, max_sleep_ms=2.0, timeout=120, pool=None):
+    """per db_url one round: k processes (fresh one-shot children waiting at a barrier, or k pool workers) are released together and
+    run the constructor with seeded random sleeps of 0..max_sleep_ms at the hook points.
+    -> list of {"status", "results": {idx: msg}, "round"} per round"""
     rounds = []
     for r, url in enumerate(db_urls):
         rd = {"status": "ok", "results": {}, "round": r}
@@ -564,14 +696,21 @@ def run_unscheduled(zy, sockdir, k, db_urls, points, seed, max_sleep_ms=2.0, tim
                 for i in range(k)]
         g = None
         try:
-            g = _Group(zy, sockdir, cfgs, timeout)
+            if pool is not None:
+                g = pool.acquire(k)
+                start = [dict(c, cmd="run") for c in cfgs]
+            else:
+                g = _Group(zy, sockdir, cfgs, timeout)
+                start = [{"cmd": "go"}] * k
             for i in range(k):
-                g.chans[i].send({"cmd": "go"})
+                g.chans[i].send(start[i])
             for i in range(k):
                 m = g.recv(i)
                 if m is None:
                     m = {"session_id": None, "exc": "child died", "exc_type": "ChildDied", "log": []}
                 rd["results"][i] = m
+            if pool is not None and any(m.get("exc_type") == "ChildDied" for m in rd["results"].values()):
+                g.kill()
         except Watchdog as e:
             rd["status"] = "watchdog: %s" % e
             if g:
